@@ -126,8 +126,11 @@ zix_file_equals(ZixAllocator* const allocator,
       }
     }
 
+    // Release the pages (keeping errno, which tells if reading failed)
+    const int read_errno = errno;
     zix_aligned_free(allocator, page_b);
     zix_aligned_free(allocator, page_a);
+    errno = read_errno;
   }
 
   return !zix_system_close_fds(fd_b, fd_a) && match;
